@@ -120,44 +120,14 @@ func c05R1Verify(c *Ctx) {
 	}
 	n0Edges, _ := c05NotPositiveEdges(fn, isPath(recv+".base*.N*"))
 	eofEdges, _ := c05EqEdges(fn, isPath(recv+".err*"), func(v ssa.Value) bool { return c05IsGlobalLoad(v, "io.EOF") })
-	// trailing-data probe: a call that receives vr.base.R
-	var eEdges []Edge
-	probes := 0
-	for _, call := range Calls(fn, func(string) bool { return true }) {
-		argIdx := -1
-		for i, a := range call.Common().Args {
-			if c05LoadPath(a) == recv+".base*.R*" {
-				argIdx = i
-			}
-		}
-		if argIdx < 0 {
-			continue
-		}
-		probes++
-		name := CalleeName(call)
-		switch {
-		case name == "io.ReadFull" || name == "io.ReadAtLeast":
-			if argIdx != 0 {
-				c.Undecided(R, tn+"|trailing-data-probe", call.Pos(), "vr.base.R passed to "+name+" in an unexpected position")
-				continue
-			}
-			if e := ErrOf(call); e != nil {
-				al := Aliases(e)
-				eq, _ := c05EqEdges(fn, func(v ssa.Value) bool { return al[v] }, func(v ssa.Value) bool { return c05IsGlobalLoad(v, "io.EOF") })
-				eEdges = append(eEdges, eq...)
-			}
-			c.OK(R, tn+"|trailing-data-probe", call.Pos(), "Verify probes vr.base.R with "+name+" and compares the error with io.EOF")
-		case StaticCallee(call) != nil && inModule(StaticCallee(call)):
-			g := StaticCallee(call)
-			if c05EOFProbeSound(c, R, g, argIdx) {
-				eEdges = append(eEdges, c05NilEdgesOf(call)...)
-			}
-		default:
-			c.Undecided(R, tn+"|trailing-data-probe", call.Pos(), "vr.base.R handed to "+name+": not a recognised end-of-stream probe")
-		}
-	}
-	if probes == 0 {
+	// trailing-data probe: a read of vr.base.R (directly, through the ensureEOF-role helper, or through a method of vr that does so)
+	eEdges, probes, undec := c05ProbeEdges(c, R, fn, func(v ssa.Value) bool { return c05LoadPath(v) == recv+".base*.R*" }, fn.Params[0], 0)
+	if undec != "" {
+		c.Undecided(R, tn+"|trailing-data-probe", fn.Pos(), undec)
+	} else if probes == 0 {
 		c.Violation(R, tn+"|trailing-data-probe", fn.Pos(), "Verify never reads from vr.base.R: data beyond Size is not detected (ReadAll/Push would accept a stream with trailing bytes)")
+	} else {
+		c.OK(R, tn+"|trailing-data-probe", fn.Pos(), "Verify probes vr.base.R for end of stream")
 	}
 	// digest check
 	var dEdges []Edge
@@ -303,57 +273,126 @@ func boolKeys(m map[string]token.Pos) map[string]bool {
 	return o
 }
 
-// c05EOFProbeSound checks the ensureEOF-role helper g: it returns nil only
-// when io.ReadFull on its reader parameter reports exactly io.EOF.
-func c05EOFProbeSound(c *Ctx, R string, g *ssa.Function, argIdx int) bool {
-	gn := FnName(g)
-	if argIdx >= len(g.Params) || ErrResultIndex(g.Signature) < 0 {
-		c.Undecided(R, gn+"|eof-probe", g.Pos(), "helper receiving vr.base.R has no error result")
-		return false
-	}
-	rd := g.Params[argIdx]
-	var eq []Edge
-	reads := 0
-	for _, call := range Calls(g, func(string) bool { return true }) {
-		uses := false
-		for _, a := range call.Common().Args {
-			if strip(a) == ssa.Value(rd) {
-				uses = true
-			}
-		}
-		if !uses {
+// c05ProbeEdges returns the edges of fn on which the stream satisfying
+// isReader is known to be exhausted: io.ReadFull/ReadAtLeast on it reported
+// exactly io.EOF, or a helper that returns nil only in that case returned nil.
+// owner (may be nil) is the value whose field the reader is: a helper that
+// receives the owner (a method of the verify reader) is followed too.
+func c05ProbeEdges(c *Ctx, R string, fn *ssa.Function, isReader func(v ssa.Value) bool, owner ssa.Value, depth int) (edges []Edge, probes int, undecided string) {
+	isEOF := func(v ssa.Value) bool { return c05IsGlobalLoad(v, "io.EOF") }
+	for _, call := range Calls(fn, func(string) bool { return true }) {
+		if _, isDefer := call.(*ssa.Defer); isDefer {
 			continue
 		}
-		n := CalleeName(call)
-		if n != "io.ReadFull" && n != "io.ReadAtLeast" {
-			c.Undecided(R, gn+"|eof-probe", call.Pos(), "the stream is probed with "+n+": only io.ReadFull/io.ReadAtLeast (io.EOF iff zero bytes) are recognised")
-			return false
+		args := call.Common().Args
+		argIdx, ownIdx := -1, -1
+		for i, a := range args {
+			if isReader(a) {
+				argIdx = i
+			}
+			if owner != nil && strip(a) == owner {
+				ownIdx = i
+			}
 		}
-		reads++
-		if e := ErrOf(call); e != nil {
-			al := Aliases(e)
-			q, _ := c05EqEdges(g, func(v ssa.Value) bool { return al[v] }, func(v ssa.Value) bool { return c05IsGlobalLoad(v, "io.EOF") })
-			eq = append(eq, q...)
+		name := CalleeName(call)
+		g := StaticCallee(call)
+		switch {
+		case argIdx >= 0 && (name == "io.ReadFull" || name == "io.ReadAtLeast"):
+			probes++
+			if argIdx != 0 {
+				return nil, probes, "the stream is passed to " + name + " in an unexpected position"
+			}
+			if len(args) > 1 {
+				if sl, ok := args[1].(*ssa.Slice); ok {
+					if pt, ok := sl.X.Type().Underlying().(*types.Pointer); ok {
+						if at, ok := pt.Elem().Underlying().(*types.Array); ok && at.Len() == 0 {
+							return nil, probes, "probe buffer has length 0"
+						}
+					}
+				}
+			}
+			if e := ErrOf(call); e != nil {
+				al := Aliases(e)
+				eq, _ := c05EqEdges(fn, func(v ssa.Value) bool { return al[v] }, isEOF)
+				edges = append(edges, eq...)
+			}
+		case argIdx >= 0 && g != nil && inModule(g) && len(g.Blocks) > 0 && depth < 3 && argIdx < len(g.Params) && ErrResultIndex(g.Signature) >= 0:
+			probes++
+			rd := g.Params[argIdx]
+			if c05ProbeNilSound(c, R, g, func(v ssa.Value) bool { return strip(v) == ssa.Value(rd) }, nil, depth+1) {
+				edges = append(edges, c05NilEdgesOf(call)...)
+			}
+		case argIdx >= 0:
+			probes++
+			return nil, probes, "the stream is handed to " + name + ": only io.ReadFull/io.ReadAtLeast (io.EOF iff zero bytes) and in-module helpers built on them are recognised as end-of-stream probes"
+		case ownIdx >= 0 && g != nil && len(g.Blocks) > 0 && c05Helper(call, fn) != nil && depth < 3 && ownIdx < len(g.Params) && ErrResultIndex(g.Signature) >= 0:
+			// a method of the reader's owner: look for the probe inside
+			op := g.Params[ownIdx]
+			path := "P:" + op.Name() + ".base*.R*"
+			inner := func(v ssa.Value) bool { return c05LoadPath(v) == path }
+			_, n, _ := c05ProbeEdges(c, R, g, inner, op, depth+1)
+			if n == 0 {
+				continue
+			}
+			probes++
+			if c05ProbeNilSound(c, R, g, inner, op, depth+1) {
+				edges = append(edges, c05NilEdgesOf(call)...)
+			}
 		}
-		// the probe buffer must be able to hold a byte
-		if len(call.Common().Args) > 1 {
-			if sl, ok := call.Common().Args[1].(*ssa.Slice); ok {
-				if pt, ok := sl.X.Type().Underlying().(*types.Pointer); ok {
-					if at, ok := pt.Elem().Underlying().(*types.Array); ok && at.Len() == 0 {
-						c.Violation(R, gn+"|eof-probe", call.Pos(), "probe buffer has length 0")
-						return false
+	}
+	return edges, probes, ""
+}
+
+// c05ProbeNilSound: g returns a nil error only on an edge where the stream is
+// known to be exhausted.
+func c05ProbeNilSound(c *Ctx, R string, g *ssa.Function, isReader func(v ssa.Value) bool, owner ssa.Value, depth int) bool {
+	gn := FnName(g)
+	edges, probes, undec := c05ProbeEdges(c, R, g, isReader, owner, depth)
+	if undec != "" {
+		c.Undecided(R, gn+"|eof-probe", g.Pos(), undec)
+		return false
+	}
+	if probes == 0 {
+		c.Violation(R, gn+"|eof-probe", g.Pos(), "the helper never reads from the stream it is given")
+		return false
+	}
+	ok := c05DeferKeepsError(g) == ""
+	// returning the verdict of a sound inner helper as is
+	direct := map[ssa.Value]bool{}
+	for _, call := range Calls(g, func(string) bool { return true }) {
+		if len(c05NilEdgesOf(call)) == 0 && ErrOf(call) != nil {
+			h := StaticCallee(call)
+			for _, a := range call.Common().Args {
+				if isReader(a) && h != nil && inModule(h) && len(h.Blocks) > 0 {
+					for al := range Aliases(ErrOf(call)) {
+						direct[al] = true
 					}
 				}
 			}
 		}
 	}
-	if reads == 0 {
-		c.Violation(R, gn+"|eof-probe", g.Pos(), "the helper never reads from the stream it is given")
-		return false
-	}
-	ok := true
 	for _, a := range c05MaybeNilAtoms(g) {
-		if !c05AtomMustPass(a, newCut().Edges(eq...)) {
+		if direct[a.Val] {
+			// `return ensureEOF(r)`: sound iff the callee is
+			if call, isCall := a.Val.(*ssa.Call); isCall {
+				h := StaticCallee(call)
+				idx := -1
+				for i, x := range call.Call.Args {
+					if isReader(x) {
+						idx = i
+					}
+				}
+				if h != nil && idx >= 0 && idx < len(h.Params) && depth < 3 {
+					rd := h.Params[idx]
+					if c05ProbeNilSound(c, R, h, func(v ssa.Value) bool { return strip(v) == ssa.Value(rd) }, nil, depth+1) {
+						continue
+					}
+				}
+			}
+			ok = false
+			continue
+		}
+		if !c05AtomMustPass(a, newCut().Edges(edges...)) {
 			ok = false
 		}
 	}
@@ -752,52 +791,77 @@ func c05R2Memory(c *Ctx) {
 		return
 	}
 	tn := FnName(fn)
+	root := c05Root(fn)
 	n := 0
-	for _, u := range c05FieldUses([]*ssa.Function{fn}, "~/internal/cas.Memory", "content") {
-		call, ok := u.Use.(ssa.CallInstruction)
-		if !ok || !c05SyncMapWriters[CalleeName(call)] {
-			continue
-		}
-		n++
-		args := call.Common().Args
-		key, val := args[1], args[2]
-		// value = result 0 of ReadAll
-		var ra *ssa.Call
-		if e, ok := strip(val).(*ssa.Extract); ok && e.Index == 0 {
-			if rc, ok := e.Tuple.(*ssa.Call); ok && CalleeName(rc) == c05ReadAll {
-				ra = rc
+	for _, e := range c05TreeEnvs(root, 3) {
+		for _, u := range c05FieldUses([]*ssa.Function{e.Fn}, "~/internal/cas.Memory", "content") {
+			call, ok := u.Use.(ssa.CallInstruction)
+			if !ok || !c05SyncMapWriters[CalleeName(call)] {
+				continue
 			}
-		}
-		c.Check(R, tn+"|stored-value-is-verified-bytes", call.Pos(), ra != nil,
-			ifelse(ra != nil, "the stored value is the buffer returned by content.ReadAll", "the value put into the content map is not the result of content.ReadAll (unverified bytes become fetchable)"))
-		if ra == nil {
-			continue
-		}
-		ok2 := MustPass(call.(ssa.Instruction), newCut().Edges(c05NilEdgesOf(ra)...))
-		c.Check(R, tn+"|store-dominated-by-verified-read", call.Pos(), ok2,
-			ifelse(ok2, "every path to "+CalleeName(call)+" takes the err==nil edge of ReadAll", "the content map is written on a path where ReadAll did not succeed"))
-		dp := c05ParamOf(ra.Call.Args[1])
-		okKey := false
-		for _, r := range Roots(c05Unspill(key)) {
-			if kc, ok := strip(r).(*ssa.Call); ok && CalleeName(kc) == "~/internal/descriptor.FromOCI" && dp != nil && c05ParamOf(kc.Call.Args[0]) == dp {
-				okKey = true
-			} else {
+			n++
+			args := call.Common().Args
+			key, kat := e.up(args[1])
+			val, vat := e.up(args[2])
+			// value = result 0 of ReadAll
+			var ra *ssa.Call
+			if ex, ok := strip(val).(*ssa.Extract); ok && ex.Index == 0 {
+				if rc, ok := ex.Tuple.(*ssa.Call); ok && CalleeName(rc) == c05ReadAll {
+					ra = rc
+				}
+			}
+			c.Check(R, tn+"|stored-value-is-verified-bytes", call.Pos(), ra != nil,
+				ifelse(ra != nil, "the stored value is the buffer returned by content.ReadAll", "the value put into the content map is not the result of content.ReadAll (unverified bytes become fetchable)"))
+			if ra == nil {
+				continue
+			}
+			// dominance: at the level where ReadAll lives, every path to the store (or to the call leading to it) takes its err==nil edge
+			ok2 := false
+			var tgt ssa.Instruction = call.(ssa.Instruction)
+			for lv := e; lv != nil; lv = lv.Parent {
+				if lv == vat {
+					ok2 = MustPass(tgt, newCut().Edges(c05NilEdgesOf(ra)...))
+					break
+				}
+				if lv.Call == nil {
+					break
+				}
+				tgt = lv.Call.(ssa.Instruction)
+			}
+			c.Check(R, tn+"|store-dominated-by-verified-read", call.Pos(), ok2,
+				ifelse(ok2, "every path to "+CalleeName(call)+" takes the err==nil edge of ReadAll", "the content map is written on a path where ReadAll did not succeed"))
+			dv, dat := vat.up(ra.Call.Args[1])
+			okKey := false
+			for _, r := range Roots(c05Unspill(key)) {
 				okKey = false
-				break
+				if kc, ok := strip(r).(*ssa.Call); ok && CalleeName(kc) == "~/internal/descriptor.FromOCI" {
+					if kv, kvat := kat.up(kc.Call.Args[0]); kvat == dat && kv == dv {
+						if _, isP := kv.(*ssa.Parameter); isP {
+							okKey = true
+						}
+					}
+				}
+				if !okKey {
+					break
+				}
 			}
-		}
-		c.Check(R, tn+"|key-is-same-descriptor", call.Pos(), okKey,
-			ifelse(okKey, "the key is descriptor.FromOCI of the descriptor ReadAll verified against", "the map key is not derived from the descriptor the bytes were verified against"))
-		isParam := false
-		for _, p := range fn.Params {
-			if derivesFromAny(ra.Call.Args[0], map[ssa.Value]bool{p: true}, 0) && !c05IsOCIDescriptor(p.Type()) && p != fn.Params[0] {
-				isParam = true
+			c.Check(R, tn+"|key-is-same-descriptor", call.Pos(), okKey,
+				ifelse(okKey, "the key is descriptor.FromOCI of the descriptor ReadAll verified against", "the map key is not derived from the descriptor the bytes were verified against"))
+			isParam := false
+			for _, src := range c05ReaderSources(ra.Call.Args[0], 0) {
+				if w, at := vat.up(src); at.isRoot() {
+					for _, p := range fn.Params[1:] {
+						if w == ssa.Value(p) && !c05IsOCIDescriptor(p.Type()) {
+							isParam = true
+						}
+					}
+				}
 			}
+			c.Check(R, tn+"|reads-callers-stream", call.Pos(), isParam, "ReadAll consumes the reader parameter of Push")
 		}
-		c.Check(R, tn+"|reads-callers-stream", call.Pos(), isParam, "ReadAll consumes the reader parameter of Push")
 	}
 	if n == 0 {
-		c.LostAnchor(R, tn+": write to Memory.content")
+		c.LostAnchor(R, tn+": write to Memory.content (in Push or a helper it calls)")
 	}
 }
 
@@ -1564,53 +1628,79 @@ func c05R3(c *Ctx) {
 	const R = "C05.R3.who-may-publish"
 	c.Expect(R, 12) // 19 on the pinned tree; the 6 reader lines are optional
 	all := c05ModuleFuncs(c.P)
-	// (a) cas.Memory.content
-	c05MapInventory(c, R, all, "~/internal/cas.Memory", "content", map[string]string{
-		"(*~/internal/cas.Memory).Push|(*sync.Map).LoadOrStore": "publication, verified by R2",
-		"(*~/internal/cas.Memory).Push|(*sync.Map).Load":        "reader",
-		"(*~/internal/cas.Memory).Fetch|(*sync.Map).Load":       "reader",
-		"(*~/internal/cas.Memory).Exists|(*sync.Map).Load":      "reader",
-		"(*~/internal/cas.Memory).Map|(*sync.Map).Range":        "reader",
-	}, []string{"(*~/internal/cas.Memory).Push|(*sync.Map).LoadOrStore"})
-	// (b) file.Store.digestToPath
-	c05MapInventory(c, R, all, "~/content/file.Store", "digestToPath", map[string]string{
-		"(*~/content/file.Store).saveFile|(*sync.Map).Store":           "publication of a pushed digest, verified by R2",
-		"(*~/content/file.Store).descriptorFromDir|(*sync.Map).Store":  "Add: digest computed by the store over the bytes it wrote",
-		"(*~/content/file.Store).descriptorFromFile|(*sync.Map).Store": "Add: digest computed by the store over the file it read",
-		"(*~/content/file.Store).Fetch|(*sync.Map).Load":               "reader",
-		"(*~/content/file.Store).Exists|(*sync.Map).Load":              "reader",
-	}, []string{"(*~/content/file.Store).saveFile|(*sync.Map).Store"})
+	tree := func(pkg, name string) map[*ssa.Function]bool {
+		out := map[*ssa.Function]bool{}
+		if f := c.P.Fn(pkg, name); f != nil && len(f.Blocks) > 0 {
+			for _, e := range c05TreeEnvs(c05Root(f), 4) {
+				out[e.Fn] = true
+			}
+		}
+		return out
+	}
+	// (a) cas.Memory.content: written only by the atomic LoadOrStore below Push
+	c05MapInventory(c, R, all, "~/internal/cas.Memory", "content", map[string]bool{"(*sync.Map).LoadOrStore": true},
+		tree("internal/cas", "Memory.Push"), nil, "(*~/internal/cas.Memory).Push")
+	// (b) file.Store.digestToPath: written below Push (with a verified copy in the same function, R2) and below Add (provenance check)
+	c05MapInventory(c, R, all, "~/content/file.Store", "digestToPath", map[string]bool{"(*sync.Map).Store": true, "(*sync.Map).LoadOrStore": true},
+		tree("content/file", "Store.Push"), tree("content/file", "Store.Add"), "(*~/content/file.Store).Push")
 	c05AddProvenance(c, R)
 	// (c) names under blobs/
 	c05BlobsInventory(c, R)
 }
 
-// c05MapInventory classifies every use of the sync.Map field T.field.
-func c05MapInventory(c *Ctx, R string, fns []*ssa.Function, typ, field string, table map[string]string, required []string) {
-	seen := map[string]token.Pos{}
+// c05MapInventory classifies every use of the sync.Map field T.field: reads
+// are free; writes (only with the allowed methods) must sit in the call tree
+// of the exported Push — where a verified copy in the same function backs them
+// (checked by R2) — or of the second allowed entry point; nothing may delete
+// or leak the map.
+func c05MapInventory(c *Ctx, R string, fns []*ssa.Function, typ, field string, writers map[string]bool, pushTree, otherTree map[*ssa.Function]bool, pushName string) {
+	type rec struct {
+		pos  token.Pos
+		ok   bool
+		role string
+	}
+	seen := map[string]rec{}
 	var order []string
+	pushWriters := 0
 	for _, u := range c05FieldUses(fns, typ, field) {
 		k := FnName(u.Fn) + "|"
-		if call, ok := u.Use.(ssa.CallInstruction); ok && len(call.Common().Args) > 0 && call.Common().Args[0] == ssa.Value(u.Addr) &&
-			(c05SyncMapWriters[CalleeName(call)] || c05SyncMapRemovers[CalleeName(call)] || c05SyncMapReaders[CalleeName(call)]) {
-			k += CalleeName(call)
-		} else {
+		r := rec{pos: u.Use.Pos()}
+		call, isCall := u.Use.(ssa.CallInstruction)
+		name := ""
+		if isCall && len(call.Common().Args) > 0 && call.Common().Args[0] == ssa.Value(u.Addr) {
+			name = CalleeName(call)
+		}
+		switch {
+		case c05SyncMapReaders[name]:
+			k += name
+			r.ok, r.role = true, "reader"
+		case c05SyncMapWriters[name] && writers[name] && pushTree[u.Fn]:
+			k += name
+			pushWriters++
+			r.ok, r.role = true, "publication below "+pushName+", verified by R2"
+			if typ == "~/content/file.Store" && len(c05CopyCalls(u.Fn)) == 0 {
+				r.ok, r.role = false, "a digest is recorded on the Push side in a function that performs no verified copy: R2 cannot tie the record to a verification"
+			}
+		case c05SyncMapWriters[name] && writers[name] && otherTree[u.Fn]:
+			k += name
+			r.ok, r.role = true, "Add: digest computed by the store itself (provenance checked)"
+		case name != "":
+			k += name
+			r.role = "unclassified access to " + typ + "." + field + ": only the confirmed writers may make content visible (" + name + " in " + FnName(u.Fn) + "); review against C05"
+		default:
 			k += fmt.Sprintf("address-escapes(%T)", u.Use)
+			r.role = "the address of " + typ + "." + field + " escapes: writers can no longer be enumerated"
 		}
 		if _, dup := seen[k]; !dup {
 			order = append(order, k)
 		}
-		seen[k] = u.Use.Pos()
+		seen[k] = r
 	}
 	for _, k := range order {
-		role, ok := table[k]
-		c.Exists(R, typ+"."+field+"|"+k, seen[k], ok,
-			ifelse(ok, role, "unclassified access to "+typ+"."+field+": only the confirmed writers may make content visible; review against C05 and extend the table"))
+		c.Exists(R, typ+"."+field+"|"+k, seen[k].pos, seen[k].ok, seen[k].role)
 	}
-	for _, rq := range required {
-		if _, ok := seen[rq]; !ok {
-			c.ob(R, typ+"."+field+"|"+rq, token.NoPos, Lost, true, "required publication site no longer present")
-		}
+	if pushWriters == 0 {
+		c.ob(R, typ+"."+field+"|publication-below-"+pushName, token.NoPos, Lost, true, "required publication site no longer present")
 	}
 	if len(order) == 0 {
 		c.LostAnchor(R, typ+"."+field)
